@@ -1,11 +1,12 @@
 /-
 C09 — Blocking nodes never discard; non-blocking nodes never wait.
-(Source and Machine automata; Splitter / Combiner not yet modelled.  "never waits" additionally
+(Source and Machine automata here; Splitter / Combiner: `pack_blocking_never_discards` below, from Proofs/Pack*.lean.  "never waits" additionally
 needs that can_put is exact (C11): then the reservation issued right after a positive probe is
 granted at once.)
 -/
 import FsVerif.Proofs.Machine
 import FsVerif.Proofs.SourceSink
+import FsVerif.Props.C16
 namespace FsVerif.Props.C09
 open FsVerif
 
@@ -26,5 +27,84 @@ theorem discard_counts_exactly (cfg : MacCfg) (acts : List MacState.Act) (scfg :
     (MacState.runActs (MacState.init cfg) acts).discarded = (MacState.runActs (MacState.init cfg) acts).dropped.length ∧
     (SrcState.runActs (SrcState.init scfg) sacts).discarded = (SrcState.runActs (SrcState.init scfg) sacts).dropped.length :=
   ⟨(MacState.reach_minv cfg acts).disc, (SrcState.reach_sinv scfg sacts).disc⟩
+
+/-- Combiner and Splitter: a blocking one never discards a unit (pallet or item), under every schedule; the discard counter
+    is the number of dropped units -/
+theorem pack_blocking_never_discards (cfg : PackCfg) (acts : List PackState.Act) (hb : cfg.blocking = true) :
+    (PackState.run (PackState.init cfg) acts).droppedU = [] ∧ (PackState.run (PackState.init cfg) acts).discarded = 0 :=
+  (C16.blocking_never_discards cfg acts).2 hb
+
+/-! ### non-vacuity: two RECORDED runs of the real Machine (tools/lean_demo.py: Source every 2 → Buffer → Machine with
+processing delay 1 → Buffer of capacity 1 and delay 6 → Sink, 14 time units).  The non-blocking machine finds the out-edge full
+four times and discards four items; the blocking machine waits instead and discards nothing. -/
+
+def demoNonBlocking : List MacState.Act :=
+[ ⟨0, 0, {}⟩,
+  ⟨0, 0, {}⟩,
+  ⟨0, 0, {}⟩,
+  ⟨0, 2, { trig := [0], draws := [1], items := [{ id := 1, created := 2 }] }⟩,
+  ⟨1, 2, {}⟩,
+  ⟨1, 3, { cans := [true] }⟩,
+  ⟨2, 3, {}⟩,
+  ⟨2, 3, { trig := [1] }⟩,
+  ⟨1, 3, {}⟩,
+  ⟨1, 3, {}⟩,
+  ⟨0, 3, {}⟩,
+  ⟨0, 4, { trig := [2], draws := [1], items := [{ id := 2, created := 4 }] }⟩,
+  ⟨3, 4, {}⟩,
+  ⟨3, 5, { cans := [false] }⟩,
+  ⟨3, 5, {}⟩,
+  ⟨0, 5, {}⟩,
+  ⟨0, 6, { trig := [3], draws := [1], items := [{ id := 3, created := 6 }] }⟩,
+  ⟨4, 6, {}⟩,
+  ⟨4, 7, { cans := [false] }⟩,
+  ⟨4, 7, {}⟩,
+  ⟨0, 7, {}⟩,
+  ⟨0, 8, { trig := [4], draws := [1], items := [{ id := 4, created := 8 }] }⟩,
+  ⟨5, 8, {}⟩,
+  ⟨5, 9, { cans := [false] }⟩,
+  ⟨5, 9, {}⟩,
+  ⟨0, 9, {}⟩,
+  ⟨0, 10, { trig := [5], draws := [1], items := [{ id := 5, created := 10 }] }⟩,
+  ⟨6, 10, {}⟩,
+  ⟨6, 11, { cans := [true] }⟩,
+  ⟨7, 11, {}⟩,
+  ⟨7, 11, { trig := [6] }⟩,
+  ⟨6, 11, {}⟩,
+  ⟨6, 11, {}⟩,
+  ⟨0, 11, {}⟩,
+  ⟨0, 12, { trig := [7], draws := [1], items := [{ id := 6, created := 12 }] }⟩,
+  ⟨8, 12, {}⟩,
+  ⟨8, 13, { cans := [false] }⟩,
+  ⟨8, 13, {}⟩,
+  ⟨0, 13, {}⟩ ]
+
+def demoBlocking : List MacState.Act :=
+[ ⟨0, 0, {}⟩,
+  ⟨0, 0, {}⟩,
+  ⟨0, 0, {}⟩,
+  ⟨0, 2, { trig := [0], draws := [1], items := [{ id := 1, created := 2 }] }⟩,
+  ⟨1, 2, {}⟩,
+  ⟨1, 3, {}⟩,
+  ⟨1, 3, { trig := [1] }⟩,
+  ⟨1, 3, {}⟩,
+  ⟨0, 3, {}⟩,
+  ⟨0, 4, { trig := [2], draws := [1], items := [{ id := 2, created := 4 }] }⟩,
+  ⟨2, 4, {}⟩,
+  ⟨2, 5, {}⟩,
+  ⟨2, 9, { trig := [3] }⟩,
+  ⟨2, 9, {}⟩,
+  ⟨0, 9, {}⟩,
+  ⟨0, 9, { trig := [4], draws := [1], items := [{ id := 3, created := 6 }] }⟩,
+  ⟨3, 9, {}⟩,
+  ⟨3, 10, {}⟩ ]
+
+example : (MacState.runActs (MacState.init { wc := 1, blocking := false }) demoNonBlocking).discarded = 4 ∧
+    (MacState.runActs (MacState.init { wc := 1, blocking := false }) demoNonBlocking).dropped = [2, 3, 4, 6] ∧
+    (MacState.runActs (MacState.init { wc := 1, blocking := false }) demoNonBlocking).flagged = false := by decide +kernel
+
+example : (MacState.runActs (MacState.init { wc := 1, blocking := true }) demoBlocking).discarded = 0 ∧
+    (MacState.runActs (MacState.init { wc := 1, blocking := true }) demoBlocking).pulled = [1, 2, 3] ∧
+    (MacState.runActs (MacState.init { wc := 1, blocking := true }) demoBlocking).flagged = false := by decide +kernel
 
 end FsVerif.Props.C09
